@@ -34,7 +34,7 @@ known('F5b', 'C10', ['C10.event_incomplete', 'C10.result_left_nonterminal', 'C10
 known('F5b', 'C01', ['C01.missing', 'C01.hang'], F5b + ' and its remaining handlers never run', '')
 known('F5b', 'C03', ['C03.hang', 'C03.descendant_incomplete'], F5b + ', awaiting it hangs', '')
 known('F5b', 'C15', ['C15.hang'], F5b + ' and stays started in history, wait_until_idle never returns', '')
-known('F9', 'C09', ['C09.event_bus'], 'event.event_bus returns the last bus of event_path, wrong for handlers that run after the event was forwarded')
+fixed('F9', 'C09', ['C09.event_bus'], '27bab07', 'event.event_bus returned the last bus of event_path, wrong for handlers that run after the event was forwarded')
 F11 = 'an in-flight (started) parent is evicted from a small history while its children outnumber max_history_size; upward completion cannot find it'
 known('F11', 'C13', ['C13.hang'], F11 + ' and awaiting it hangs')
 known('F2', 'C11', ['C11.await_raised', 'C11.event_incomplete', 'C11.C01_missing', 'C11.hang'], F2 + '; the guard error escapes from an in-handler await', '')
